@@ -7,6 +7,9 @@ canonical form `xv.canon.canon_attr_strict` (never calls __eq__/__hash__/the pri
             float corner cases, rebuilt copies, dialect attributes harvested from the corpus); ALL pairs are compared:
             eq <=> canon-equal, eq => equal hashes, symmetry, reflexivity, transitivity over the complete eq relation of
             the pool, `!=` consistent with `==`, set/dict insertion and lookup through equal copies.
+            Values containing order-insensitive containers (DictionaryAttr, set/dict payloads) are also rebuilt with
+            their entries inserted in another order (API and parser): equal values along different construction paths
+            must hash equally and be interchangeable in sets / dicts.
   twoctx    the same text parsed in two fresh Contexts (and twice in one Context): the results must be equal, hash
             equal and canonically equal - for generated attribute texts and, position-wise, for every attribute of
             every corpus module.
@@ -148,6 +151,13 @@ def has_nan_floatdata(a):
     return any(isinstance(n, bi.FloatData) and math.isnan(n.data) for n, _p, _s in genattr.walk(a))
 
 
+def nan_hash_unstable(a, b):
+    """The known wrong-behaviour model: two NaN FloatData with identical bits hash differently."""
+    na = [n for n, _p, _s in genattr.walk(a) if isinstance(n, bi.FloatData) and math.isnan(n.data)]
+    nb = [n for n, _p, _s in genattr.walk(b) if isinstance(n, bi.FloatData) and math.isnan(n.data)]
+    return any(genattr.f64_bits(x.data) == genattr.f64_bits(y.data) and hash(x) != hash(y) for x in na for y in nb)
+
+
 def count_leaf_diffs(a, b):
     d = []
     leaf_diffs(a, b, d)
@@ -176,6 +186,21 @@ def float_family(rng):
     out.append(bi.DenseIntOrFPElementsAttr.from_list(t, [-0.0, -0.0]))
     out.append(bi.DenseArrayBase.from_list(bi.f64, [0.0, math.nan]))
     out.append(bi.DenseArrayBase.from_list(bi.f64, [-0.0, math.nan]))
+    # the same dictionaries built / parsed with different entry orders (order-insensitive container: eq => same hash)
+    i32 = bi.i32
+    d_ab = bi.DictionaryAttr({"a": bi.IntegerAttr(1, i32), "b": bi.IntegerAttr(2, i32)})
+    d_ba = bi.DictionaryAttr({"b": bi.IntegerAttr(2, i32), "a": bi.IntegerAttr(1, i32)})
+    d3 = {"x": bi.UnitAttr(), "y": bi.StringAttr("s"), "z": bi.FloatAttr(1.0, bi.f32), "w": d_ab}
+    ks = list(d3)
+    out += [d_ab, d_ba, bi.ArrayAttr([d_ab, bi.UnitAttr()]), bi.ArrayAttr([d_ba, bi.UnitAttr()]),
+            bi.DictionaryAttr({"o": d_ab, "p": i32}), bi.DictionaryAttr({"p": i32, "o": d_ba}),
+            bi.DictionaryAttr(d3), bi.DictionaryAttr({k: d3[k] for k in reversed(ks)}),
+            bi.DictionaryAttr({k: d3[k] for k in rng.sample(ks, len(ks))}),
+            bi.TensorType(bi.f32, [2], d_ab), bi.TensorType(bi.f32, [2], d_ba)]
+    pctx = new_ctx(True)
+    for t in ("{a = 1 : i32, b = 2 : i32}", "{b = 2 : i32, a = 1 : i32}", "[{a = 1 : i32, b = 2 : i32}, unit]",
+              "[{b = 2 : i32, a = 1 : i32}, unit]", "{o = {b = 2 : i32, a = 1 : i32}, p = i32}"):
+        out.append(Parser(pctx, t).parse_attribute())
     out += [bi.IntAttr(True), bi.IntAttr(1), bi.IntAttr(False), bi.IntAttr(0), bi.IntegerAttr(1, bi.i1), bi.IntegerAttr(-1, bi.i1),
             bi.IntegerAttr(0, bi.i32), bi.IntegerAttr(0, bi.i64), bi.IntegerAttr(0, bi.IndexType()),
             bi.IntegerAttr(0, bi.IntegerType(32, bi.Signedness.SIGNED)), bi.StringAttr(""), bi.BytesAttr(b""),
@@ -239,10 +264,25 @@ def build_pool(rng, harvested, size=200):
             add(d, "neardup")
     for a in rng.sample(bases, min(20, len(bases))):
         add(genattr.rebuild(a), "copy")
+    # the same values along another construction path: entries of order-insensitive containers inserted in another order
+    for _ in range(12):
+        d = genattr.AttrGen(rng, max_depth=2, avoid=("dense_resource",)).dict_attr(rng.choice([1, 2]))
+        if len(d.data) >= 2:
+            bases.append(d)
+            add(d, "gen")
+    unordered = [a for a in bases if genattr.has_unordered_container(a)]
+    for a in unordered[:30]:
+        add(genattr.rebuild_reordered(a, rng), "reordered")
     if harvested:
         hs = rng.sample(harvested, min(40, len(harvested)))
         for h in hs:
             add(h, "corpus")
+        for h in hs:
+            if genattr.has_unordered_container(h):
+                try:
+                    add(genattr.rebuild_reordered(h, rng), "reordered")
+                except Exception:  # noqa: BLE001
+                    pass
         for h in hs[:12]:
             try:
                 add(genattr.rebuild(h), "corpus-copy")
@@ -290,6 +330,8 @@ def check_pool(pool, tags, R, prefix=""):
             eq[i][j] = eq[j][i] = e
             same = canons[i] == canons[j]
             sameclass = canons[i][1] == canons[j][1]
+            if same and "reordered" in (tags[i], tags[j]) and a is not b:
+                R.bump("pairs_equal_value_other_construction_order")
             if sameclass and (same or e or tags[j] in ("neardup", "corpus-neardup", "family")):
                 if same or count_leaf_diffs(a, b) <= 1:
                     R.nontrivial.add(shash((chash[i], chash[j])))
@@ -304,7 +346,7 @@ def check_pool(pool, tags, R, prefix=""):
                        [a, b])
             if e and hashes[i] is not None and hashes[j] is not None and hashes[i] != hashes[j]:
                 R.bump("pairs_eq_but_hash_differs")
-                if has_nan_floatdata(a) and has_nan_floatdata(b):
+                if nan_hash_unstable(a, b):
                     R.viol(K_HASHNAN, "a == b but hash(a) != hash(b); both contain a NaN FloatData", [a, b])
                 else:
                     R.viol(f"eq-but-hash-differs:{type(a).__name__}", "a == b but hash(a) != hash(b)", [a, b])
@@ -343,8 +385,10 @@ def check_pool(pool, tags, R, prefix=""):
             R.bump("dict_key_conflations")
             for key in classify_eq_but_differs(pool[k], a):
                 R.viol(key, "dict keyed by attributes conflates two observably different values", [pool[k], a])
-        if tags[i] in ("copy", "corpus-copy"):
+        if tags[i] in ("copy", "corpus-copy", "reordered"):
             R.bump("lookups_through_equal_copy")
+        if tags[i] == "reordered":
+            R.bump("reordered_container_copies_checked")
     ncanon = len({canons[i] for i in live})
     R.bump("distinct_values_in_pools", ncanon)
     R.bump("set_sizes", len(s))
@@ -1110,6 +1154,7 @@ def finish(agg, tier):
                     ("group_pairs_compared", 1500 if q else 4000), ("class_groups", 40 if q else 80),
                     ("history_interleaved_lookups", 6000 if q else 100000), ("history_comparisons", 1200 if q else 8000),
                     ("history_checkpoints", 15 if q else 100),
+                    ("pairs_equal_value_other_construction_order", 100 if q else 4000),
                     ("purity_reference_comparisons", 3000 if q else 20000), ("purity_request_ids_compared_across_shards", 800),
                     ("irdl_dialects_loaded", 2), ("irdl_pairs_compared", 5000), ("irdl_same_load_same_value_pairs", 200),
                     ("irdl_cross_load_same_value_pairs", 300),
